@@ -114,9 +114,16 @@ def make_scratch(tag, model_maps=False, harness=True, repo=None, harness_dir=Non
         src = open(p).read()
         if model_maps:
             src = _rewrite_std_import(src, m + ".rs")
+        # Engine workaround (DESIGN 7, Kani 0.68): a `Vec<Box<dyn DnsRecordExt>>` that starts with
+        # capacity 0 loses the vtable half of the first element it stores.  `Vec::new()` and
+        # `Vec::with_capacity(n)` differ only in allocation strategy, never in observable
+        # behaviour, so the scratch copy pre-sizes every vector.
+        src = re.sub(r"\bVec::new\(\)", "Vec::with_capacity(8)", src)
+        if m == "dns_cache":
+            src = src.replace(".or_default()", ".or_insert_with(|| Vec::with_capacity(8))")
         hp = os.path.join(hdir, m + "_harness.rs")
         if os.path.exists(hp):
-            src += f'\n#[cfg(kani)]\n#[path = "{hp}"]\nmod verif_kani;\n'
+            src += f'\n#[cfg(kani)]\n#[path = "{hp}"]\npub(crate) mod verif_kani;\n'
         open(p, "w").write(src)
     lib = os.path.join(dst, "src", "lib.rs")
     src = open(lib).read()
